@@ -32,7 +32,7 @@ func init() {
 		"secret, manufacturer-key hash, GUID, rendezvous info, device-certificate hash), the old voucher must be gone, with reuse "+
 		"nothing may change; the header the owner stored is compared field by field with the Lean handover model; DI and TO2 "+
 		"are cut at every message index (request lost, response lost, peer answers with an error): before an accepted Done the "+
-		"owner's voucher store must be byte-identical and TO2 must return no credential; distinct = (configuration, round, cut)", c03)
+		"owner's voucher store must be byte-identical and TO2 must return no credential; owner-side options (size-limit callback answering 0/64/300/absent, owner keys without chain): both sides new or both sides old; distinct = (configuration, round, cut)", c03)
 }
 
 // agreement checks the stored voucher against the credential with the library's own verifiers.
